@@ -180,6 +180,28 @@ pub fn fam_shadow(_cfg: &FunCfg, sink: &mut FunSink) {
             });
         }
     }
+    // shadowing that changes the TYPE or the chirality of the name (binder kinds: let, clause,
+    // cocase clause, label over a variable, variable over a label / covariable parameter)
+    for name in ["x", "a", "y", "x0"] {
+        for shape in 0..7 {
+            sink.offer(move || {
+                let nm = name;
+                let body: String = match shape {
+                    0 => format!("let {nm}: i64 = sum({nm}) + n; {nm} * 2"),
+                    1 => format!("{nm}.case[i64] {{ Nil => n, Cons({nm}, t) => {nm} + sum(t) }}"),
+                    2 => format!("new {{ ap({nm}) => {nm} + n }}.ap[i64, i64](sum({nm}))"),
+                    3 => format!("sum({nm}) + (label {nm} {{ if n == 0 {{ goto {nm} (7) }} else {{ n }} }})"),
+                    4 => format!("label {nm} {{ let {nm}: i64 = n + 1; {nm} * 2 }}"),
+                    5 => format!("let f: Fun[i64, List[i64]] = new {{ ap({nm}) => Cons({nm}, Nil) }}; sum(f.ap[i64, List[i64]](sum({nm}) + n))"),
+                    _ => format!("label k {{ (new {{ ap(k) => k + 1 }}).ap[i64, i64](if n == 0 {{ goto k (sum({nm})) }} else {{ n }}) }}"),
+                };
+                let src = format!(
+                    "{PRELUDE_TYPES}{PRELUDE_DEFS}def f({nm}: List[i64], n: i64): i64 {{ {body} }}\ndef main(n: i64, m: i64): i64 {{ println_i64(f(Cons(m, Cons(3, Nil)), n)); println_i64(f(Nil, m)); 0 }}\n"
+                );
+                FunCase { name: format!("shadow/retype/{shape}/{nm}"), src, inputs: vec![vec![0, 1], vec![5, 7], vec![-1, 0]], sequenced: true }
+            });
+        }
+    }
     // covariable shadowing: outer label / covariable parameter vs inner label of the same name
     for outer in ["a", "a0", "k"] {
         for inner in ["a", "a0", "k"] {
@@ -204,7 +226,7 @@ pub fn fam_live(cfg: &FunCfg, sink: &mut FunSink) {
     let ks: Vec<usize> = if cfg.thorough { (0..=20).collect() } else { vec![0, 1, 5, 6, 7, 12, 13, 14, 18] };
     for k in ks {
         for pat in ["int", "obj", "alt"] {
-            for construct in ["print", "case", "call", "closure", "op", "if", "label"] {
+            for construct in ["print", "case", "call", "closure", "op", "if", "label", "if_last_first", "if_first_last", "op_last_first"] {
                 sink.offer(move || {
                     // let v0..v{k-1}; CONSTRUCT; sum of all
                     let names: Vec<String> = (0..k).map(|i| format!("v{i}")).collect();
@@ -226,6 +248,19 @@ pub fn fam_live(cfg: &FunCfg, sink: &mut FunSink) {
                         "closure" => ap(new_fun("q", op(var("q"), "+", var("n"))), lit(3)),
                         "op" => op(var("n"), "%", lit(3)),
                         "if" => if_("<", var("n"), lit(2), lit(10), lit(20)),
+                        // operands taken from the two ends of the environment (register vs spill)
+                        "if_last_first" => {
+                            let last = (0..k).rev().find(|i| !is_obj(*i)).map(|i| names[i].clone()).unwrap_or("n".into());
+                            if_("<", var(&last), var("n"), lit(10), lit(20))
+                        }
+                        "if_first_last" => {
+                            let last = (0..k).rev().find(|i| !is_obj(*i)).map(|i| names[i].clone()).unwrap_or("n".into());
+                            if_(">=", var("n"), var(&last), lit(10), lit(20))
+                        }
+                        "op_last_first" => {
+                            let last = (0..k).rev().find(|i| !is_obj(*i)).map(|i| names[i].clone()).unwrap_or("n".into());
+                            op(op(var(&last), "-", var("n")), "*", op(var("n"), "-", var(&last)))
+                        }
                         _ => label("a", ifz("==", var("n"), goto("a", lit(7)), lit(8))),
                     };
                     let mut body = let_("z", Ty::Int, mid, total);
